@@ -54,10 +54,23 @@ int __tsan_get_report_data(void *report, const char **description, int *count, i
 __attribute__((no_sanitize("thread"))) void __tsan_on_report(void *rep) {
   const char *d = 0; int c, sc, mc, lc, mu, tc, ut; void *sl[1];
   __tsan_get_report_data(rep, &d, &c, &sc, &mc, &lc, &mu, &tc, &ut, sl, 1);
-  if (!g_race) { int i = 0; if (d) for (; d[i] && i < (int)sizeof g_race_desc - 1; i++) g_race_desc[i] = d[i] == ' ' ? '-' : d[i]; g_race_desc[i] = 0; }
+  if (!d || d[0] != 'd' || d[1] != 'a' || d[2] != 't' || d[3] != 'a' || d[4] != '-' || d[5] != 'r') return;   /* data races only, see h_C13.c */
+  if (!g_race) { int i = 0; for (; d[i] && i < (int)sizeof g_race_desc - 1; i++) g_race_desc[i] = d[i] == ' ' ? '-' : d[i]; g_race_desc[i] = 0; }
   g_race++;
 }
-const char *__tsan_default_options(void) { return "suppress_equal_stacks=0:suppress_equal_addresses=0:exitcode=0:report_thread_leaks=0:history_size=4"; }
+/* The driver exports TSAN_OPTIONS=halt_on_error=1:exitcode=66 (a report kills the worker and the engine files it as
+ * crash|tsan:<kind>|<innermost library frame>, without the input class).  This harness wants the class in the key and the
+ * other oracles evaluated on the same execution, so the TSan build re-executes itself once with options appended (later
+ * values win): keep running after a report (the hook above hands it to the oracle), do not fold the exit status, and do not
+ * suppress a race whose stacks/addresses equal an earlier one (that suppression is per PROCESS and would hide the race in
+ * every execution of a worker after the first).  If the exec fails the engine's crash attribution still applies. */
+static void tsan_reexec(char **argv) {
+  if (getenv("H_TSAN_REEXEC")) return;
+  const char *o = getenv("TSAN_OPTIONS"); char buf[1200];
+  snprintf(buf, sizeof buf, "%s%shalt_on_error=0:exitcode=0:suppress_equal_stacks=0:suppress_equal_addresses=0:report_thread_leaks=0:history_size=4", o ? o : "", o && *o ? ":" : "");
+  setenv("TSAN_OPTIONS", buf, 1); setenv("H_TSAN_REEXEC", "1", 1);
+  execv("/proc/self/exe", argv);
+}
 #endif
 static void race_reset(void) { g_race = 0; g_race_desc[0] = 0; }
 static void race_check(const char *fn, const char *cl) {
@@ -246,6 +259,9 @@ static void body(void) {
 }
 
 int main(int argc, char **argv) {
+#if H_TSAN
+  tsan_reexec(argv);
+#endif
   vg_seed(getenv("VERIF_SEED") ? atol(getenv("VERIF_SEED")) : 0);
   vx_describe("build", H_TSAN ? "clang ThreadSanitizer, small subset, free-running threads" : "gcc ASan+UBSan");
   vx_describe("alphabet", "n in {3,4,5,8,13,30,80} x d in {1,2,3,6} x general-position families (selection, quick tier: n <= 30); selection: {MDC, MaxDis+MaxDis_Fast} x 3 metrics x ALL sizes 1..n, KMeansppCenters x ALL sizes 1..n x seeds; "
